@@ -41,12 +41,17 @@ var c40Menu = []string{
 	"component", "component", "field", "field", "field", "buffers", "buffers", "progress", "progress", "mode", "is_tracing",
 }
 
-func genC40Req(rt *rapid.T, excluded map[string]bool, steered *bool) c40Req {
-	kind := rapid.SampledFrom(c40Menu).Draw(rt, "kind")
+// the quiescence sub-check is about pause / inspect / continue
+var c40InspectMenu = []string{
+	"pause", "continue", "continue", "state", "list", "component", "component", "component", "field", "field", "field", "field", "buffers", "mode",
+}
+
+func genC40Req(rt *rapid.T, menu []string, excluded map[string]bool, steered *bool) c40Req {
+	kind := rapid.SampledFrom(menu).Draw(rt, "kind")
 	if excluded[kind] {
 		*steered = true
 		var allowed []string
-		for _, k := range c40Menu {
+		for _, k := range menu {
 			if !excluded[k] {
 				allowed = append(allowed, k)
 			}
@@ -75,13 +80,13 @@ func genC40Req(rt *rapid.T, excluded map[string]bool, steered *bool) c40Req {
 	return r
 }
 
-func genC40(rt *rapid.T, excluded map[string]bool) (c40Case, bool) {
+func genC40(rt *rapid.T, menu []string, excluded map[string]bool) (c40Case, bool) {
 	c := c40Presets[rapid.IntRange(0, len(c40Presets)-1).Draw(rt, "preset")]
 	c.Procs = rapid.SampledFrom([]int{2, 3, 4, 8}).Draw(rt, "procs")
 	steered := false
 	n := rapid.IntRange(30, 70).Draw(rt, "nreqs")
 	for i := 0; i < n; i++ {
-		c.Reqs = append(c.Reqs, genC40Req(rt, excluded, &steered))
+		c.Reqs = append(c.Reqs, genC40Req(rt, menu, excluded, &steered))
 	}
 	c.Reqs = append(c.Reqs, c40Req{Kind: "continue"})
 	return c, steered
@@ -90,6 +95,10 @@ func genC40(rt *rapid.T, excluded map[string]bool) (c40Case, bool) {
 // ---- signatures ---------------------------------------------------------------------------------
 
 const c40MonitorPrefix = "monitoring2.(*Monitor)."
+
+// c40OverlapSig + "monitor.<handler>": the quiescence probe saw event handling
+// in progress inside the handler's Pause()…Continue() bracket.
+const c40OverlapSig = "inspection-overlaps-event:"
 
 // c40RaceSig names a race by the monitor handler on one side and the kind of
 // engine-goroutine code on the other ("engine-loop": the serial engine's own
@@ -133,10 +142,18 @@ func c40RaceSig(r raceReport) string {
 func c40ExcludedKinds() map[string]bool {
 	ex := map[string]bool{}
 	for _, k := range kit.LoadKnown() {
-		if k.Property != "C40" || !strings.HasPrefix(k.Sig, "race:monitor.") {
+		if k.Property != "C40" {
 			continue
 		}
-		h := strings.TrimPrefix(k.Sig, "race:monitor.")
+		h := ""
+		for _, pfx := range []string{"race:monitor.", c40OverlapSig + "monitor."} {
+			if strings.HasPrefix(k.Sig, pfx) {
+				h = strings.TrimPrefix(k.Sig, pfx)
+			}
+		}
+		if h == "" {
+			continue
+		}
 		if i := strings.IndexByte(h, '/'); i >= 0 {
 			h = h[:i]
 		}
@@ -173,9 +190,13 @@ type c40Runner struct {
 	bases map[string]c40Outcome
 }
 
+// c40BaseCache: unmonitored outcomes per preset, shared by the sub-checks of
+// one test process.
+var c40BaseCache = map[string]c40Outcome{}
+
 func newC40Runner(t *testing.T, s *kit.Session) *c40Runner {
 	root := workDir(t)
-	return &c40Runner{t: t, s: s, root: root, pool: newChildPool(root), bases: map[string]c40Outcome{}}
+	return &c40Runner{t: t, s: s, root: root, pool: newChildPool(root), bases: c40BaseCache}
 }
 
 type c40Verdict struct {
@@ -194,7 +215,36 @@ func (r *c40Runner) child(rq c40ChildReq, fresh bool) c40Verdict {
 	if err := os.WriteFile(cf, b, 0o644); err != nil {
 		r.t.Fatalf("write case: %v", err)
 	}
+	// the HTTP client runs here, in the parent process
+	stop := make(chan struct{})
+	clientDone := make(chan []c40Served, 1)
+	if rq.Mon || rq.Probe {
+		go func() {
+			var served []c40Served
+			defer func() {
+				_ = os.WriteFile(filepath.Join(dir, "clientdone"), []byte("1"), 0o644)
+				clientDone <- served
+			}()
+			var ann c40Announce
+			for {
+				select {
+				case <-stop:
+					return
+				default:
+				}
+				if b, err := os.ReadFile(filepath.Join(dir, "port")); err == nil && json.Unmarshal(b, &ann) == nil && ann.Port > 0 {
+					break
+				}
+				time.Sleep(time.Millisecond)
+			}
+			served = c40Client(ann.Port, rq.Case.Reqs, stop)
+		}()
+	} else {
+		clientDone <- nil
+	}
 	cr, err := r.pool.Run("C40", cf, of, 8*time.Minute, fresh)
+	close(stop)
+	served := <-clientDone
 	if err != nil {
 		v.Inconcl = "child could not be started: " + err.Error()
 		return v
@@ -210,6 +260,10 @@ func (r *c40Runner) child(rq c40ChildReq, fresh bool) c40Verdict {
 		v.Inconcl = "bad child report: " + err.Error()
 		return v
 	}
+	for i := range served {
+		served[i].MidRun = served[i].Err == "" && served[i].SendNS >= v.Res.RunStartNS && served[i].RecvNS <= v.Res.RunEndNS
+	}
+	v.Res.Served = served
 	if v.Res.Hang != "" {
 		v.Inconcl = "hang: " + v.Res.Hang
 		g, _ := os.ReadFile(cf + ".goroutines")
@@ -312,7 +366,7 @@ func (r *c40Runner) run(f kit.Failer, c c40Case, fresh bool) {
 		return
 	}
 
-	mid, paused, adv, errs := 0, 0, 0, 0
+	mid, paused, errs := 0, 0, 0
 	kinds := map[string]bool{}
 	for _, sv := range v.Res.Served {
 		if sv.Err != "" {
@@ -325,9 +379,6 @@ func (r *c40Runner) run(f kit.Failer, c c40Case, fresh bool) {
 			if sv.Paused {
 				paused++
 			}
-			if sv.Advance {
-				adv++
-			}
 		}
 	}
 	cl := []string{fmt.Sprintf("procs:%d", c.Procs)}
@@ -336,9 +387,6 @@ func (r *c40Runner) run(f kit.Failer, c c40Case, fresh bool) {
 	}
 	if paused > 0 {
 		cl = append(cl, "requests-while-paused")
-	}
-	if adv > 0 {
-		cl = append(cl, "engine-advanced-during-request")
 	}
 	if errs > 0 {
 		cl = append(cl, "request-transport-error")
@@ -411,9 +459,9 @@ func TestC40Monitor(t *testing.T) {
 		t.Skip()
 	}
 
-	kit.SetChecks(30, 200)
+	kit.SetChecks(20, 120)
 	rapid.Check(t, func(rt *rapid.T) {
-		c, steered := genC40(rt, excluded)
+		c, steered := genC40(rt, c40Menu, excluded)
 		if steered {
 			s.Excluded(1)
 		}
@@ -482,14 +530,104 @@ func TestC40Known_Tick(t *testing.T) {
 	c40Known(t, "known-tick", []c40Req{{Kind: "tick", Comp: "DRAM", GapUS: 300}, {Kind: "tick", Comp: "Cache", GapUS: 300}}, 20, 4)
 }
 
-func TestC40Known_Inspect(t *testing.T) {
-	c40Known(t, "known-inspect", []c40Req{
-		{Kind: "component", Comp: "Cache", GapUS: 500},
-		{Kind: "field", Comp: "MemAccessAgent", Field: "State", GapUS: 500},
-		{Kind: "field", Comp: "Cache", Field: "State.Transactions", Query: "slice_offset=0&slice_limit=10", GapUS: 500},
-	}, 12, 4)
-}
-
 func TestC40Known_Progress(t *testing.T) {
 	c40Known(t, "known-progress", []c40Req{{Kind: "progress", GapUS: 300}}, 40, 4)
+}
+
+// ---- sub-check: the inspection bracket is quiescent -------------------------------------------------
+
+const c40QRule = "as sub-check monitor, but the child builds the simulation without the builder's monitor and attaches its own monitoring2.Monitor to a wrapper of the same engine " +
+	"(components, ports and progress bars registered as simulation.RegisterComponent does). The wrapper forwards everything and notes the engine phase (published by an engine hook: " +
+	"inside event k / between events) when the handler's Pause() returned and when it called Continue(). Oracle (the C05 invariant seen through the monitor): for the handlers that read " +
+	"component state inside the bracket (component and field inspection) no event may be in progress when Pause() has returned and no event may start or end before Continue() is called; " +
+	"plus the completion/fingerprint oracle of sub-check monitor. This sub-check does not rely on the race detector (its own instrumentation synchronises). " +
+	"Non-trivial: ≥ 5 inspection brackets were observed while engine.Run() was in progress."
+
+func TestC40Quiescence(t *testing.T) {
+	s := kit.Begin(t, "C40", "quiescence", c40QRule)
+	defer s.End()
+	s.Assume("an event counts as in progress between the engine's before-event and after-event hooks")
+	r := newC40Runner(t, s)
+	defer r.pool.Close()
+	excluded := c40ExcludedKinds()
+
+	run := func(f kit.Failer, c c40Case, fresh bool) {
+		key := c40SimKey(c)
+		base, haveBase := r.bases[key]
+		v := r.child(c40ChildReq{Case: c, Base: !haveBase, Probe: true}, fresh)
+		if v.Inconcl != "" {
+			s.AddExtra("inconclusive_runs", 1)
+			s.Note(c, false, "inconclusive")
+			return
+		}
+		if !haveBase {
+			if v.Res.Base.Panic != "" || !v.Res.Base.Finished {
+				s.Note(c, false, "base-run-failed")
+				return
+			}
+			base = v.Res.Base
+			r.bases[key] = base
+		}
+		n, bad := 0, 0
+		for _, sec := range v.Res.Sections {
+			if sec.Handler != "listFieldValue" && sec.Handler != "listComponentDetails" {
+				continue
+			}
+			n++
+			if sec.S1%2 == 1 || sec.S2 != sec.S1 {
+				bad++
+				what := fmt.Sprintf("event %d was still being handled when Pause() returned to Monitor.%s", sec.S1/2+1, sec.Handler)
+				if sec.S1%2 == 0 {
+					what = fmt.Sprintf("the engine went on to event %d after Pause() had returned to Monitor.%s (between events, %d handled)", sec.S2/2+sec.S2%2, sec.Handler, sec.S1/2)
+				}
+				s.Fail(f, c, c40OverlapSig+"monitor."+sec.Handler, "%s; phase at Continue() = %d (2k: idle after k events, 2k+1: inside event k+1). The handler serialises component state inside this bracket.", what, sec.S2)
+			}
+		}
+		if bad > 0 {
+			s.Note(c, false, "hit-known-finding")
+			return
+		}
+		for _, p := range v.Child.Panics {
+			s.Fail(f, c, c40PanicSig(p), "a monitor handler panicked:\n%s", head(p, 3000))
+			return
+		}
+		if what, msg := c40Diff(base, v.Res.Mon, c.Accesses, true); what != "" {
+			s.Fail(f, c, "outcome-differs:"+what, "monitored run differs from the unmonitored run of the same case: %s", msg)
+			return
+		}
+		mid := 0
+		for _, sv := range v.Res.Served {
+			if sv.MidRun {
+				mid++
+			}
+		}
+		cl := []string{fmt.Sprintf("procs:%d", c.Procs)}
+		if n > 0 {
+			cl = append(cl, "inspection-brackets-observed")
+		}
+		s.AddExtra("inspection_brackets", n)
+		s.Note(c, n >= 5 && mid >= 20, cl...)
+	}
+
+	var c c40Case
+	if ok, err := kit.LoadReplay("C40", "quiescence", &c); ok {
+		if err != nil {
+			t.Fatal(err)
+		}
+		for i := 0; i < 4 && !t.Failed(); i++ {
+			run(t, c, true)
+		}
+		return
+	} else if kit.ReplayMode() {
+		t.Skip()
+	}
+
+	kit.SetChecks(6, 30)
+	rapid.Check(t, func(rt *rapid.T) {
+		c, steered := genC40(rt, c40InspectMenu, excluded)
+		if steered {
+			s.Excluded(1)
+		}
+		run(rt, c, false)
+	})
 }
